@@ -11,6 +11,7 @@ import (
 	"encoding/json"
 	"fmt"
 	"os"
+	"sort"
 	"strings"
 	"sync"
 	"testing"
@@ -445,6 +446,18 @@ func bubble(job *Job, cell Cell, res *Result) {
 		}
 		time.Sleep(time.Duration(dt))
 		s.mu.Lock()
+		// the order in which goroutines reached their gates since the last quiescent point is
+		// real-time scheduling noise: order the parked set by (site, kind, arrival) before choosing
+		sort.SliceStable(s.parked, func(i, j int) bool {
+			a, b := s.parked[i], s.parked[j]
+			if a.site != b.site {
+				return a.site < b.site
+			}
+			if a.kind != b.kind {
+				return a.kind < b.kind
+			}
+			return a.seq < b.seq
+		})
 		p := s.parked[pick]
 		s.parked = append(s.parked[:pick], s.parked[pick+1:]...)
 		if p.kind == "send" && len(ch) == cap(ch) {
